@@ -20,7 +20,8 @@ LEAN_TARGETS = ['CfVerif.Props.C08']
 PROPS_MODULES = ['CfVerif.Props.C08']
 DRIVER = 'Driver/C08.lean'
 REQUIRED_THEOREMS = ['CfVerif.C08.' + t for t in (
-    'header_lossless', 'emit_decodes', 'history_decodes', 'history_results', 'history_version_is_latest', 'gen_object_state', 'emit_complete', 'unrepresentable_raises', 'emit_port_channel_size', 'lopo_payload_decodes', 'thrust_out_of_range_raises',
+    'header_lossless', 'emit_decodes', 'history_decodes', 'history_results', 'history_version_is_latest', 'wire_is_what_was_emitted',
+    'emitted_packet_never_mutated', 'gen_object_state', 'gen_fresh_packet', 'emit_complete', 'unrepresentable_raises', 'emit_port_channel_size', 'lopo_payload_decodes', 'thrust_out_of_range_raises',
     'thrust_float_never_sent', 'int16_overflow_raises', 'f64ToInt_trunc', 'compress_quaternion_layout', 'iLargest_is_max',
     'bsMask_testBit', 'spiral_comparisons_exact', 'f64ToInt_nan_inf_raise', 'lh_persist_invalid_raises', 'lh_persist_live_counterexample', 'neg_int_zero',
     'gen_emitters', 'gen_setpoint', 'gen_hover', 'gen_fullState', 'gen_hlGoTo', 'gen_hlSpiral', 'gen_lhPersist', 'gen_lhPersist_detail', 'gen_packet',
@@ -38,7 +39,9 @@ RULE = ('cases = one API call each (30 emitting methods x protocol versions -1..
         'boundaries of every integer field, bools, floats in integer fields; plus HISTORIES of one long-lived Crazyflie/Commander/'
         'HighLevelCommander/Localization object set whose negotiated protocol version (direct, via the real handshake callbacks, '
         '-1 while the handshake runs / for firmware without versioning) and x-mode change between calls: every versioned method '
-        'across every ordered pair of versions around both switches, and random mixed histories; non-trivial = distinct request '
+        'across every ordered pair of versions around both switches, bursts of back-to-back calls for every ordered pair of methods of '
+        'each emitter family, and random mixed histories; the recording link queues the packet OBJECTS and serialises them only at '
+        'transmit points / the end of the history; non-trivial = distinct request '
         'line / distinct (history, position)')
 
 # ---------------------------------------------------------------------------------------------------
@@ -117,6 +120,19 @@ def _emit_method(g, trees, relpath, qual, key):
     # the struct.pack argument of HighLevelCommander._send_packet(...) is pinned through <key>_args, not here
     sends = [s if len(s) < 80 else s.split('(')[0] + '(...)' for s in sends]
     g.strings(key + '_sends', sends)
+    # the object handed to Crazyflie.send_packet: which expression, and every binding of that name in this method
+    # (the model assumes a packet object constructed in this very call and never stored: `pk = CRTPPacket()`)
+    sent, binds = [], []
+    for n in _sorted_nodes(fn, lambda n: isinstance(n, ast.Call) and isinstance(n.func, ast.Attribute) and n.func.attr == 'send_packet'):
+        sent.append(', '.join([ast.unparse(x) for x in n.args] + ['%s=%s' % (k.arg, ast.unparse(k.value)) for k in n.keywords]))
+        for x in n.args[:1]:
+            if isinstance(x, ast.Name):
+                for m in _sorted_nodes(fn, lambda m: isinstance(m, (ast.Assign, ast.AugAssign, ast.AnnAssign, ast.NamedExpr))):
+                    tg = m.targets if isinstance(m, ast.Assign) else [m.target]
+                    if any(isinstance(t, ast.Name) and t.id == x.id for t in tg):
+                        binds.append(ast.unparse(m))
+    g.strings(key + '_sentObject', sent)
+    g.strings(key + '_sentBindings', binds)
     g.strings(key + '_cmps', X.compares(fn))
     g.strings(key + '_raises', [ast.unparse(n.exc.func) if isinstance(n.exc, ast.Call) else ast.unparse(n.exc)
                                 for n in _sorted_nodes(fn, lambda n: isinstance(n, ast.Raise) and n.exc is not None)])
@@ -364,8 +380,13 @@ class _Link:
         self.sent = []
 
     def send_packet(self, pk):
-        # what every link driver transmits: the header byte followed by the data bytes
-        self.sent.append((pk.header, bytes(pk.data)))
+        # a queueing driver (RadioDriver, UsbDriver, ...): the packet OBJECT is queued; header byte and data bytes are read
+        # only when the driver's thread transmits, i.e. after send_packet returned and possibly after further API calls
+        self.sent.append(pk)
+
+    @staticmethod
+    def serialise(pk):
+        return (pk.header, bytes(pk.data))
 
 
 _STUB = {}
@@ -432,7 +453,7 @@ def run_real(ver, fn):
         if cf.link.sent:
             return ('err', 'after-send:' + exc_enum(e))
         return ('err', exc_enum(e))
-    return ('ok', list(cf.link.sent))
+    return ('ok', [_Link.serialise(pk) for pk in cf.link.sent])
 
 
 def show_real(r):
@@ -1071,6 +1092,10 @@ def corpus_cases():
 
 # ---- histories: ONE long-lived object set, protocol version and x-mode change between calls -------------
 VERSIONED = ['velocityWorld', 'zdistance', 'hover', 'hlGoTo', 'hlSpiral']
+FAMILIES = [['setpoint', 'notifyStop', 'stopSetpoint', 'velocityWorld', 'zdistance', 'hover', 'fullState', 'position'],
+            ['hlGroupMask', 'hlTakeoff', 'hlLand', 'hlStop', 'hlGoTo', 'hlSpiral', 'hlStartTraj', 'hlDefineTraj'],
+            ['extpos', 'extpose', 'shortLpp', 'emergencyStop', 'emergencyWatchdog', 'lhPersist', 'extposWrap', 'extposeWrap'],
+            ['contWave', 'arming', 'crashRecovery'], ['lopoPosition', 'lopoReboot', 'lopoMode', 'shortLpp']]
 SWITCH_VERSIONS = [-1, 0, 7, 8, 9, 10]
 
 
@@ -1098,14 +1123,20 @@ def real_negotiate(cf, v, how):
 
 
 def run_history(events):
-    """events: ('xmode', b) | ('ver', v, how) | ('call', name, args).  Returns [(version the harness negotiated last,
-    x-mode set last, version the platform object reports, outcome)] for the call events."""
+    """events: ('xmode', b) | ('ver', v, how) | ('call', name, args) | ('transmit',).  The link queues packet objects; they are
+    serialised at the ('transmit',) events and at the end of the history (never at call time).  Returns [(version the
+    harness negotiated last, x-mode set last, version the platform object reports, outcome)] for the call events."""
     import contextlib
     import io
     import warnings
     cf = _stub_class()(-1)
     cur_ver, cur_xm = -1, False
-    out = []
+    out, frames = [], {}
+
+    def transmit():
+        for i, pk in enumerate(cf.link.sent):
+            if i not in frames:
+                frames[i] = _Link.serialise(pk)
     with warnings.catch_warnings(), contextlib.redirect_stdout(io.StringIO()):
         warnings.simplefilter('ignore')
         for ev in events:
@@ -1115,12 +1146,19 @@ def run_history(events):
             elif ev[0] == 'ver':
                 real_negotiate(cf, ev[1], ev[2])
                 cur_ver = ev[1] if ev[2] in ('set', 'handshake') else -1
+            elif ev[0] == 'transmit':
+                transmit()
             else:
                 n0 = len(cf.link.sent)
                 seen = cf.platform.get_protocol_version()
+                name, a = ev[1], ev[2]
+                buf = None
+                if name == 'shortLpp' and isinstance(a[1], bytearray):
+                    buf = bytearray(a[1])                  # the caller's own buffer ...
+                    a = (a[0], buf)
                 try:
-                    call_real(ev[1], ev[2], stateful=True)(cf)
-                    r = ('ok', list(cf.link.sent[n0:]))
+                    call_real(name, a, stateful=True)(cf)
+                    r = ('ok', (n0, len(cf.link.sent)))
                 except Exception as e:
                     if cf._send_lock.locked():
                         r = ('err', 'lock-leaked:' + exc_enum(e))
@@ -1129,8 +1167,11 @@ def run_history(events):
                         r = ('err', 'after-send:' + exc_enum(e))
                     else:
                         r = ('err', exc_enum(e))
+                if buf is not None:
+                    buf[:] = b'\xee' * len(buf)             # ... which the caller reuses right after the call
                 out.append((cur_ver, cur_xm, seen, r))
-    return out
+        transmit()
+    return [(v, x, sn, ('ok', [frames[i] for i in range(*r[1])]) if r[0] == 'ok' else r) for v, x, sn, r in out]
 
 
 def history_lines(events):
@@ -1140,6 +1181,8 @@ def history_lines(events):
             lines.append('xmode %d' % (1 if ev[1] else 0))
         elif ev[0] == 'ver':
             lines.append('negotiated %d' % (ev[1] if ev[2] in ('set', 'handshake') else -1))
+        elif ev[0] == 'transmit':
+            pass        # when the link serialises does not matter in the model (theorem wire_is_what_was_emitted)
         else:
             lines.append('H ' + model_line(0, ev[1], ev[2]).split(' ', 1)[1])
     return lines
@@ -1163,6 +1206,23 @@ def gen_histories(ctx, nrand):
                     ev2 = ('ver', v2, rng.choice(['set', 'handshake']))
                 other = rng.choice([x for x in VERSIONED if x != m])
                 hs.append([('ver', v1, how1), ('call', m, gen_call(g, m)), ev2, ('call', m, gen_call(g, m)), ('call', other, gen_call(g, other))])
+    # bursts: back-to-back commands of one emitter family (every ordered pair of its methods, then a third), the link
+    # transmits only afterwards (or, sometimes, in between)
+    for fam in FAMILIES:
+        for m1 in fam:
+            for m2 in fam:
+                g.case()
+                g.wild = 0.0
+                h = [('ver', rng.choice([7, 8, 9, 10]), 'set'), ('call', m1, gen_call(g, m1))]
+                if rng.random() < 0.15:
+                    h.append(('transmit',))
+                m3 = rng.choice(fam)
+                h += [('call', m2, gen_call(g, m2)), ('call', m3, gen_call(g, m3))]
+                try:
+                    history_lines(h)
+                except OverflowError:
+                    continue
+                hs.append(h)
     names = [n for n, _ in WEIGHTS]
     for _ in range(nrand):
         h = []
@@ -1173,6 +1233,8 @@ def gen_histories(ctx, nrand):
                 h.append(('ver', v, rng.choice(['set', 'handshake']) if v >= 0 else rng.choice(['set', 'fetch', 'old-firmware'])))
             elif r < 0.32:
                 h.append(('xmode', rng.choice([True, False, 1, 0])))
+            elif r < 0.37:
+                h.append(('transmit',))
             else:
                 g.case()
                 nm = rng.choice(VERSIONED + ['setpoint', 'setpoint']) if rng.random() < 0.7 else rng.choice(names)
@@ -1209,6 +1271,9 @@ def correspond_histories(ctx):
         next(replies)                                   # 'new'
         trail = []
         for ev in h:
+            if ev[0] == 'transmit':
+                trail.append(('transmit', None))
+                continue
             m = next(replies)
             if ev[0] != 'call':
                 trail.append(ev[:2])
@@ -1216,6 +1281,8 @@ def correspond_histories(ctx):
             cur_ver, cur_xm, seen, r = next(real)
             got = 'v%d %s' % (seen, show_real(r))
             ctx.count('history:call:' + ev[1])
+            if trail and trail[-1][0] == 'call':
+                ctx.count('history:back-to-back-before-transmit')
             ctx.count('history:version-in-force:' + ('<8' if cur_ver < 8 else '8' if cur_ver == 8 else '>8'))
             prev = [t[1] for t in trail if t[0] == 'ver']
             if len(prev) >= 2 and (prev[-2] <= 8) != (prev[-1] <= 8):
